@@ -86,7 +86,9 @@ pub fn pattern_array(input: ParseString) -> ParseResult<PatternArray> {
   input = next_input;
 
   let mut tokens = Vec::new();
+  #[cfg(mech_verif)] let mut verif_guard = crate::verif::LoopGuard::new("pattern_array");
   loop {
+    #[cfg(mech_verif)] verif_guard.tick(input.cursor);
     if let Ok((next_input, _)) = right_bracket(input.clone()) {
       input = next_input;
       break;
